@@ -71,8 +71,8 @@ pub fn comp_probe_ctx(c: &CompInfo, with_extra: bool) -> SCtx {
 }
 
 pub fn generate(seed: u64, tier: &str, property: &str) -> RenderScenario {
-    let mut rng = Rng::new(seed);
-    let cfg = GenCfg::swarm(&mut rng);
+    let rng = Rng::new(seed);
+    let cfg = GenCfg::swarm(&rng);
     let config = Config {
         autoescape: match rng.below(6) {
             0 => Some(vec![]),
@@ -81,11 +81,11 @@ pub fn generate(seed: u64, tier: &str, property: &str) -> RenderScenario {
         },
         prefixes: cfg.prefixes.clone(),
         delims: cfg.delims.clone(),
-        global: gen_global_context(&mut rng),
+        global: gen_global_context(&rng),
         custom: cfg.custom,
     };
-    let mut grng = rng.fork(1);
-    let mut g = Gen::new(&mut grng, cfg);
+    let grng = rng.fork(1);
+    let mut g = Gen::new(&grng, cfg);
     for i in 0..g.cfg.n_templates {
         g.gen_template(i);
     }
@@ -93,7 +93,7 @@ pub fn generate(seed: u64, tier: &str, property: &str) -> RenderScenario {
     let oneoffs: Vec<String> = (0..n_oneoff).map(|_| g.gen_one_off()).collect();
     let world = g.world;
 
-    let contexts = vec![gen_context(&mut rng, 0), gen_context(&mut rng, 1), gen_context(&mut rng, 2)];
+    let contexts = vec![gen_context(&rng, 0), gen_context(&rng, 1), gen_context(&rng, 2)];
     let mut targets = Vec::new();
     for t in &world.info {
         targets.push(Target::Template { name: t.name.clone() });
